@@ -179,6 +179,12 @@ class BGP(protocol.Protocol):
 
         :return: True or False
         """
+        if self.disconnected:
+            # we have closed the connection (error, NOTIFICATION received, manual
+            # stop): whatever is still buffered must not be processed any more
+            self._receive_buffer = b''
+            return False
+
         buf = self._receive_buffer
 
         if len(buf) < bgp_cons.HDR_LEN:
